@@ -27,3 +27,9 @@ func sockRole(fd int) string {
 	}
 	return role
 }
+
+// fdOpen: the descriptor number still refers to an open file
+func fdOpen(fd int) bool {
+	_, err := unix.FcntlInt(uintptr(fd), unix.F_GETFD, 0)
+	return err == nil
+}
